@@ -201,9 +201,6 @@ func ParseIgnore(wt map[string][]byte) IgnoreRules {
 		return ir
 	}
 	ir.Present = true
-	if strings.HasPrefix(string(b), "\n") || strings.Contains(string(b), "\n\n") {
-		ir.Unsettled = true // blank lines are not among the forms the statement covers
-	}
 	for _, ln := range strings.Split(string(b), "\n") {
 		ln = strings.TrimSuffix(ln, "\r")
 		if ln == "" {
@@ -655,4 +652,11 @@ func clipList(xs []string, n int) []string {
 		return xs
 	}
 	return append(append([]string{}, xs[:n]...), fmt.Sprintf("... and %d more", len(xs)-n))
+}
+
+// sameLink: p is a symbolic link before and after the step, with the same text. What the snapshots hold under p is
+// then the content of the file it points to -- another file's state, not p's.
+func sameLink(st *core.Step, p string) bool {
+	a, b := st.Pre.Odd["w/"+p], st.Post.Odd["w/"+p]
+	return a == b && strings.HasPrefix(a, "symlink -> ")
 }
